@@ -66,6 +66,9 @@ def distributions(quick):
     out.append(("two-bnode-graphs", [T[0] + [GB], T[1] + [Bn("gc")]]))
     out.append(("graph-name-also-node", [[G1, P1, L("about g1"), D], T[0] + [G1]]))
     out.append(("bnode-graph-name-also-node", [[GB, P1, L("about gb"), D], T[0] + [GB]]))
+    out.append(("bnode-graph-name-object-once", [[S1, P1, GB, D], T[0] + [GB]]))
+    out.append(("bnode-graph-name-object-once+more", [[S1, P1, GB, D], T[1] + [D], T[0] + [GB], T[3] + [GB]]))
+    out.append(("bnode-graph-name-object-in-named", [[S1, P1, GB, G1], T[0] + [GB]]))
     out.append(("hostile-literals", [[S1, P1, L('q"\\\n\t'), G1], [S1, P1, L("\U0001F600", lang="en"), D], [S1, P2, L("<&>", dt=EX + "dt"), G2]]))
     out.append(("empty-default", [T[0] + [G1], T[1] + [G2]]))
     return out
